@@ -112,7 +112,7 @@ def cases(tier, base_seed):
         if rng.random() < 0.6 and "point" not in kinds:
             kinds[rng.randrange(len(kinds))] = "point"
         frame = gen.gen_frame_spec(rng, n, kinds=kinds,
-                                   index_kind=rng.choice(("default", "named", "nonunique")))
+                                   index_kind=rng.choice(("default", "named", "nonunique", "nearsorted")))
         k = rng.randint(1, max(1, min(8, n)))
         parts = ({"mode": "splits", "splits": gen.gen_splits(rng, n, k)} if rng.random() < 0.5
                  else {"mode": "even", "k": k})
